@@ -16,9 +16,9 @@ CONSTANTS CacheLookup, MaxHist
 
 Enz == [site |-> <<3, 1>>, off |-> 1, ovh |-> 2]
 \* a small inheritance forest: generic entry G; typed parts P1, P2 under G; Q under P1 without
-\* a structure of its own; V a generic vector (unrelated branch)
-Classes == {"G", "P1", "P2", "Q", "V"}
-Parent(c) == CASE c = "P1" -> "G" [] c = "P2" -> "G" [] c = "Q" -> "P1" [] OTHER -> "none"
+\* a structure of its own; R under P2 with another signature; V a generic vector (unrelated branch)
+Classes == {"G", "P1", "P2", "Q", "R", "V"}
+Parent(c) == CASE c = "P1" -> "G" [] c = "P2" -> "G" [] c = "Q" -> "P1" [] c = "R" -> "P2" [] OTHER -> "none"
 RECURSIVE Mro(_)
 Mro(c) == IF c = "none" THEN << >> ELSE <<c>> \o Mro(Parent(c))
 Role(c) == IF c = "V" THEN "vector" ELSE "module"
@@ -27,6 +27,8 @@ StructureOf(c) == CASE c = "G"  -> GenericModule(Enz)
                     [] c = "P1" -> PartModule(Enz, <<1, 1>>, <<15, 2>>)       \* (AA)...(NC)
                     [] c = "P2" -> PartModule(Enz, <<2, 5>>, <<4, 4>>)        \* (CR)...(TT)
                     [] c = "Q"  -> PartModule(Enz, <<1, 1>>, <<15, 2>>)       \* inherited from P1
+                    [] c = "R"  -> PartModule(Enz, <<2, 5>>, <<3, 2>>)        \* a subclass of P2 with a signature of its own
+                                                                          \* (the replay harness gives it P2's NAME on purpose)
                     [] c = "V"  -> GenericVector(Enz)
 Mk(o5, t, o3, b) == Enz.site \o <<1>> \o o5 \o t \o o3 \o <<1>> \o RC(Enz.site) \o b
 Records == << Mk(<<1, 1>>, <<1, 4>>, <<3, 2>>, <<1, 2>>),            \* member of P1 (and Q, G)
